@@ -8,6 +8,8 @@
     CWE243 warning decision as a truth table over its three atoms
  R4 totality: unwrap/expect/panic sites whose operand depends on the analysed program
 How: the CWE243 table is computed by specialisation over the 16 assignments of its four atoms (is a warning reachable?).
+ R3+ (added after seed C17c) the two existence tests of sub_calls_chdir_and_priviledge_dropping_func do not depend on each other
+    (no per-block test of one kind under a flag set by, or in the else-branch of, the other kind's test)
 """
 import itertools
 
